@@ -89,7 +89,7 @@ def get_fs(waterfall):
     df = waterfall.header['foff']
     fchans = waterfall.header['nchans']
 
-    return np.arange(fch1, fch1 + fchans * df, df)
+    return fch1 + df * np.arange(fchans)
 
 
 def get_ts(waterfall):
@@ -114,4 +114,4 @@ def get_ts(waterfall):
     tsamp = waterfall.header['tsamp']
     tchans = waterfall.container.selection_shape[0]
 
-    return np.arange(0, tchans * tsamp, tsamp)
+    return tsamp * np.arange(tchans)
